@@ -20,6 +20,7 @@ import (
 	"encoding/json"
 	"errors"
 	"os"
+	"reflect"
 	"runtime"
 	"strconv"
 	"strings"
@@ -27,6 +28,7 @@ import (
 	"sync/atomic"
 	"testing"
 	"time"
+	"unsafe"
 
 	"github.com/alicebob/miniredis/v2"
 	"github.com/alicebob/miniredis/v2/server"
@@ -115,31 +117,31 @@ func (g *verifLogGate) Stack(v any)                     { g.hold() }
 func (g *verifLogGate) Stat(v any, _ ...logx.LogField)  {}
 
 type verifCase struct {
-	ID      int      `json:"id"`
-	Kind    string   `json:"kind"` // "period" | "token"
-	Period  int      `json:"period"`
-	Quota   int      `json:"quota"`
-	Lims    int      `json:"lims"`
-	Align   bool     `json:"align"`
-	Prefix  string   `json:"prefix"`
-	Keys    []string `json:"keys"`
-	Rate    int      `json:"rate"`
-	Burst   int      `json:"burst"`
-	N       int      `json:"n"`
-	Key     string   `json:"key"`
-	BaseMs  int64    `json:"base_ms"`
-	Hard    bool     `json:"hard"`    // outages drop the connection (network error, go-redis retries) instead of error replies
-	Wall    bool     `json:"wall"`    // token: wall-clock case (Allow / AllowCtx use time.Now())
-	Groups  []struct {
+	ID     int      `json:"id"`
+	Kind   string   `json:"kind"` // "period" | "token"
+	Period int      `json:"period"`
+	Quota  int      `json:"quota"`
+	Lims   int      `json:"lims"`
+	Align  bool     `json:"align"`
+	Prefix string   `json:"prefix"`
+	Keys   []string `json:"keys"`
+	Rate   int      `json:"rate"`
+	Burst  int      `json:"burst"`
+	N      int      `json:"n"`
+	Key    string   `json:"key"`
+	BaseMs int64    `json:"base_ms"`
+	Hard   bool     `json:"hard"` // outages drop the connection (network error, go-redis retries) instead of error replies
+	Wall   bool     `json:"wall"` // token: wall-clock case (Allow / AllowCtx use time.Now())
+	Groups []struct {
 		Key   string `json:"key"`
 		Rate  int    `json:"rate"`
 		Burst int    `json:"burst"`
 	} `json:"groups"` // token: limiters on several keys of one store ...
-	InstGroup []int `json:"inst_group"` // ... and the group of every instance
-	Breaker bool     `json:"breaker"` // may push go-zero's circuit breaker over its threshold
-	Window  bool     `json:"window"`  // uses the (process-wide) log gate: run alone, after the pool
-	Shared  bool     `json:"shared_store"` // token: all limiters use ONE *redis.Redis object (as a service does)
-	Ops     [][]any  `json:"ops"`
+	InstGroup []int   `json:"inst_group"`   // ... and the group of every instance
+	Breaker   bool    `json:"breaker"`      // may push go-zero's circuit breaker over its threshold
+	Window    bool    `json:"window"`       // uses the (process-wide) log gate: run alone, after the pool
+	Shared    bool    `json:"shared_store"` // token: all limiters use ONE *redis.Redis object (as a service does)
+	Ops       [][]any `json:"ops"`
 }
 
 type verifOut struct {
@@ -200,18 +202,18 @@ type verifStore struct {
 	hard bool
 	down bool
 
-	mu    sync.Mutex
-	hdown bool   // hook: every command fails
-	armed string // hook: forged reply for the next EVALSHA / EVAL
-	hits  int
-	pings int // PINGs of monitor goroutines that failed during an outage
-	drop        *verifDrop    // hook: the caller's context becomes done during the next script command
+	mu          sync.Mutex
+	hdown       bool   // hook: every command fails
+	armed       string // hook: forged reply for the next EVALSHA / EVAL
+	hits        int
+	pings       int        // PINGs of monitor goroutines that failed during an outage
+	drop        *verifDrop // hook: the caller's context becomes done during the next script command
 	dropHits    int
-	side        *red.Client   // a plain second connection to the server (to run a script "whose reply is lost")
-	pgate       bool          // hook: hold the reply of every PING that arrives while the store answers
+	side        *red.Client // a plain second connection to the server (to run a script "whose reply is lost")
+	pgate       bool        // hook: hold the reply of every PING that arrives while the store answers
 	pheld       int
 	pgateCh     chan struct{}
-	gate        int           // hook: hold every EVALSHA until this many have arrived
+	gate        int // hook: hold every EVALSHA until this many have arrived
 	arrived     int
 	gateCh      chan struct{}
 	nSha, nEval int  // EVALSHA / EVAL commands that arrived (whatever became of them)
@@ -536,12 +538,62 @@ func verifPeriod(c verifCase) verifOut {
 	return out
 }
 
-func verifAlive(l *TokenLimiter) bool { return atomic.LoadUint32(&l.redisAlive) == 1 }
+// The three fields of TokenLimiter the executor looks at (READ: the alive flag and the monitor flag; HELD: the
+// mutex that guards the monitor flag) are found by reflection: by today's name when it still exists with the
+// expected type, otherwise as THE field of that type - a renamed field is not a reason for an alarm.
+type verifFields struct {
+	alive   *uint32
+	started *bool
+	lock    *sync.Mutex
+}
+
+var (
+	verifFieldCache   = map[*TokenLimiter]verifFields{}
+	verifFieldCacheMu sync.Mutex
+)
+
+func verifOf(l *TokenLimiter) verifFields {
+	verifFieldCacheMu.Lock()
+	defer verifFieldCacheMu.Unlock()
+	if f, ok := verifFieldCache[l]; ok {
+		return f
+	}
+	v := reflect.ValueOf(l).Elem()
+	t := v.Type()
+	pick := func(name string, typ reflect.Type) unsafe.Pointer {
+		if f, ok := t.FieldByName(name); ok && f.Type == typ {
+			return unsafe.Pointer(v.FieldByIndex(f.Index).UnsafeAddr())
+		}
+		at := -1
+		for i := 0; i < t.NumField(); i++ {
+			if t.Field(i).Type == typ {
+				if at >= 0 {
+					panic("verif: TokenLimiter." + name + " not found and several fields have its type")
+				}
+				at = i
+			}
+		}
+		if at < 0 {
+			panic("verif: TokenLimiter has no field like " + name)
+		}
+		return unsafe.Pointer(v.Field(at).UnsafeAddr())
+	}
+	f := verifFields{
+		alive:   (*uint32)(pick("redisAlive", reflect.TypeOf(uint32(0)))),
+		started: (*bool)(pick("monitorStarted", reflect.TypeOf(false))),
+		lock:    (*sync.Mutex)(pick("rescueLock", reflect.TypeOf(sync.Mutex{}))),
+	}
+	verifFieldCache[l] = f
+	return f
+}
+
+func verifAlive(l *TokenLimiter) bool { return atomic.LoadUint32(verifOf(l).alive) == 1 }
 
 func verifMonitor(l *TokenLimiter) bool {
-	l.rescueLock.Lock()
-	defer l.rescueLock.Unlock()
-	return l.monitorStarted
+	f := verifOf(l)
+	f.lock.Lock()
+	defer f.lock.Unlock()
+	return *f.started
 }
 
 // wait until every running monitor has seen the (reachable) store: normally ~pingInterval.  An
@@ -610,7 +662,7 @@ func verifTokenOnce(c verifCase) (out verifOut) {
 		for i := range held {
 			if held[i] {
 				held[i] = false
-				lims[i].rescueLock.Unlock()
+				verifOf(lims[i]).lock.Unlock()
 			}
 		}
 		verifSync(lims, 300*time.Millisecond, nil)
@@ -817,7 +869,7 @@ func verifTokenOnce(c verifCase) (out verifOut) {
 		case "lock": // the executor takes limiter i's rescueLock: whoever wants to finish that limiter's recovery blocks
 			i := int(vnum(op[1]))
 			if !held[i] {
-				lims[i].rescueLock.Lock()
+				verifOf(lims[i]).lock.Lock()
 				held[i] = true
 			}
 			out.Obs = append(out.Obs, nil)
@@ -825,7 +877,7 @@ func verifTokenOnce(c verifCase) (out verifOut) {
 			i := int(vnum(op[1]))
 			if held[i] {
 				held[i] = false
-				lims[i].rescueLock.Unlock()
+				verifOf(lims[i]).lock.Unlock()
 			}
 			deadline := time.Now().Add(patience)
 			for polls := 0; ; polls++ {
